@@ -18,7 +18,8 @@ META = {
             "out (Fractions) and all atom marginals compared with exact possible-world probabilities and ProbLog's own numbers.",
     "note": "C31_marginals: 'sum over all assignments of the product of all factors = ancestral pass = world semantics' is proved "
             "for every network satisfying the boolean well-formedness wf_netb (duplicate-free atoms, heads among the atoms, "
-            "clauses in topological order); the harness evaluates wf_netb on (a topological permutation of the clauses of) every "
+            "clauses in topological order); C31_marginals_any_order: the marginal is invariant under clause permutation, so the "
+            "enum_clauses() order is covered; the harness evaluates wf_netb on a topological permutation of the clauses of every "
             "real exported network. Output formats (hugin/xdsl/uai08/dot) are not covered: factors are read through the "
             "problog.pgm API.",
 }
@@ -299,7 +300,7 @@ def run_one(ctx, prog, cases, metas):
             ctx.count("orcpt_multi_parent" if len(f.parentvalues) > 1 else "orcpt_single_parent")
     # tie: the real network satisfies the hypothesis wf_netb of C31_marginals / C31_joint_normalised: the OrCPT variables
     # are duplicate-free, every head atom is one of them, and the clauses admit a topological order (the theorem holds for
-    # every order satisfying wf_netb; a permutation only renumbers the choice nodes c_i)
+    # every order satisfying wf_netb; C31_marginals_any_order: bn_marginal is invariant under clause permutation)
     order = topological_clause_order(clauses)
     or_vars = [name for name, f in bn.factors.items() if hasattr(f, "parentvalues")]
     ctx.count("tie_wf_net")
@@ -320,9 +321,9 @@ def run(ctx):
                        "has more than 2 values; all atom marginals are compared, not only the queries")
     ctx.assumptions += ["the network is read through problog.pgm (Factor.table, OrCPT.to_factor); the textual output formats are not checked",
                         "float tables are rounded to 1e-12 before the exact sum-product; comparison tolerance 1e-9",
-                        "C31_marginals is stated for clause lists in topological order: wf_netb is evaluated on a topological permutation of "
-                        "enum_clauses() (a permutation only renumbers the choice nodes; the real sum-product is order-independent "
-                        "and is checked numerically here)"]
+                        "C31_marginals is stated for clause lists in topological order; C31_marginals_any_order (bn_marginal is invariant "
+                        "under clause permutation) transfers it to the enum_clauses() order: wf_netb is evaluated on a topological "
+                        "permutation of enum_clauses()"]
     ctx.prove("C31/Props.v")
     cases, metas = [], []
     if ctx.replay:
